@@ -606,6 +606,19 @@ func (i *Install) replaceRelease(rel *release.Release) error {
 	// Update version to the next available
 	rel.Version = last.Version + 1
 
+	// An older revision can still be marked deployed, for instance the last good
+	// revision below a failed upgrade or below a revision that was uninstalled
+	// with keep-history. Supersede it as well, so that only the new revision
+	// ends up deployed.
+	for _, h := range hist[1:] {
+		if h.Info.Status == release.StatusDeployed {
+			h.SetStatus(release.StatusSuperseded, "superseded by new release")
+			if err := i.recordRelease(h); err != nil {
+				return err
+			}
+		}
+	}
+
 	// Do not change the status of a failed release.
 	if last.Info.Status == release.StatusFailed {
 		return nil
